@@ -226,6 +226,8 @@ def m_glycan(rng, **_) -> M:
 
 def m_obs(rng, **_) -> M:
     v = round(rng.uniform(-50, 300), rng.choice([1, 3, 5]))
+    if v == 0:
+        v = 0.0     # never write '+-0.0'
     sign = '+' if v >= 0 and rng.random() < 0.7 else ''
     return M(f'{rng.choice(["Obs:", "obs:"])}{sign}{v!r}', mono=v, avg=v, kind='obs')
 
